@@ -19,11 +19,17 @@ def model (toks : List String) : String :=
   | "laws" :: rest =>
     (do let (a, r) ← parseValue rest; let (b, r) ← parseValue r; let (c, _) ← parseValue r
         pure s!"{cmp a a} {cmp a b} {cmp b a} {cmp b c} {cmp a c} {a.hash.toNat} {b.hash.toNat}").getD "bad-op"
+  | "less" :: k :: rest =>
+    -- execution.CompareValueSlices (GroupKey.Less): the btrees' strict order on rows
+    (do let n := k.toNat!
+        let (a, r) ← parseValues n rest
+        let (b, _) ← parseValues n r
+        pure (if lessRows a b then "1" else "0")).getD "bad-op"
   | _ => "bad-op"
 
 /-- property oracle, evaluated on what the *implementation* printed for a `laws a b c` line:
     reflexive, antisymmetric, transitive, equal ⇒ equal hash. -/
-def judge (toks : List String) (out : List String) : String :=
+def judgeLaws (toks : List String) (out : List String) : String :=
   match toks, out.map String.toInt? with
   | "laws" :: _, [some aa, some ab, some ba, some bc, some ac, some ha, some hb] =>
     if aa ≠ 0 then "bad not-reflexive"
@@ -34,5 +40,20 @@ def judge (toks : List String) (out : List String) : String :=
     else "ok"
   | "laws" :: _, _ => "bad unparsable-impl-output"
   | _, _ => "ok"
+
+def judge (toks : List String) (out : List String) : String :=
+  match toks, out with
+  | "less" :: k :: rest, [o] =>
+    -- ORDER BY / GROUP BY / MIN / MAX order rows through this function: it must be the strict part of the row order
+    match (do let n := k.toNat!
+              let (a, r) ← parseValues n rest
+              let (b, _) ← parseValues n r
+              pure (decide (cmpList a b < 0))) with
+    | some want => if (o == "1") == want then "ok" else "bad less-disagrees-with-compare"
+    | none => "bad unparsable-op"
+  | "cmp" :: _, [o] =>
+    -- every caller tests the result against -1 / 0 / 1
+    if o == "-1" || o == "0" || o == "1" then "ok" else "bad compare-result-outside-minus-one-zero-one"
+  | _, _ => judgeLaws toks out
 
 end Octo.Drv.C09
